@@ -407,6 +407,27 @@ pub fn verif_parse_js(code: String, file: &str) -> Result<Program> {
     })
 }
 
+#[cfg(datadog_dd_native_iast_rewriter_js_verif)]
+pub fn verif_parse_js_comments(code: String, file: &str) -> Result<Vec<String>> {
+    let compiler = Compiler::new(Arc::new(swc_common::SourceMap::new(
+        FilePathMapping::empty(),
+    )));
+    try_with_handler(compiler.cm.clone(), default_handler_opts(), |handler| {
+        let source_file = compiler
+            .cm
+            .new_source_file(Arc::new(FileName::Real(PathBuf::from(file))), code);
+        parse_js(&source_file, handler, &compiler)?;
+        let comments = compiler.comments();
+        let mut texts = Vec::new();
+        for entry in comments.leading.iter().chain(comments.trailing.iter()) {
+            for comment in entry.value().iter() {
+                texts.push(comment.text.to_string());
+            }
+        }
+        Ok(texts)
+    })
+}
+
 #[cfg(test)]
 pub fn debug_js(code: String) -> Result<RewrittenOutput> {
     use swc::PrintArgs;
